@@ -14,6 +14,10 @@ matching rotator class and evaluates, on the rotator's outputs only,
   (e) power 1, real loadings: varimax_criterion (Kaiser-normalised) of the rotated loadings >= that of the loadings that went in.
 
 Results of a rotator built with compute=False are judged after rotator.compute().
+
+Amplitude coordinate: the relations above are scale-covariant, so the field is also presented multiplied by a global factor
+(1e-4, 1e-6, 1e-8; thorough also 1e+6) for every rotator class and power; all tolerances are relative to the field's own scale
+(largest singular value / explained variance / squared covariance of the scaled input).
 """
 
 from __future__ import annotations
@@ -34,7 +38,9 @@ TECHNIQUE = (
 RULE = (
     "full product of base model (EOF, ComplexEOF on complex and on real data, HilbertEOF padding exp/None; CPCCA alpha-grid x use_pca/n_pca_modes, "
     "MCA, ComplexCPCCA, ComplexMCA, HilbertCPCCA, HilbertMCA) x spectrum {geometric, near_equal_var} x shape x rotated n_modes in 2..n_modes(base) "
-    "x power in 1..4 x compute in {True, False-then-compute()} (HilbertEOF without padding: n_modes(base) <= floor(n/2), the rank of the analytic "
+    "x power in 1..4 x compute in {True, False-then-compute()} x field amplitude {1; and 1e-4, 1e-6, 1e-8 (thorough also 1e+6) for every rotator class "
+    "x power at the largest n_modes with compute=True: quick on the geometric class and the first configuration of each class, thorough on both "
+    "spectra and every configuration but the off-diagonal alpha grid} (HilbertEOF without padding: n_modes(base) <= floor(n/2), the rank of the analytic "
     "signal); the quick tier takes compute=False only with power in {1,3}, one shape and a stated subset of configurations; the thorough tier runs the "
     "second data pair for everything but the off-diagonal part of the CPCCA alpha grid. A case is non-trivial when both fits returned and the reconstruction, ordering, amplitude, and (power 1) unitarity / "
     "orthonormality relations were all evaluated on non-empty arrays"
@@ -52,8 +58,9 @@ ASSUMPTIONS = [
     "RuntimeError 'Rotation process did not converge' (default max_iter/rtol) is a documented refusal on the near_equal_var class and for complex loadings (DESIGN 3.4); "
     "for real loadings on the geometric class it is reported as check='raised'",
     "modes of zero variance / zero covariance are not rotated (outside the quantifier): n_modes(base) never exceeds the numerical rank",
+    "a base model that itself loses rank when the field is rescaled (outcome skipped:base_lost_rank_at_amplitude) is the base model's matter, not judged here",
 ]
-TALLY_KEYS = ("family", "model", "spec", "power", "compute", "k")
+TALLY_KEYS = ("family", "model", "spec", "power", "compute", "k", "scale")
 TRUSTED = ["statsmodels import shim (cross-set constructors)"]
 MAX_REFUSED_FRACTION = 0.10
 
@@ -162,7 +169,31 @@ def cases(tier, seed):
                             out.append(dict(family="cross", shape=[n, px], py=py, kbase=kbase, spec=spec, k=k, power=power, compute=compute, padding=None, reuse=False, **cfg))
                             if compute and power == 1 and (tier == "thorough" or k == kbase):
                                 out.append(dict(family="cross", shape=[n, px], py=py, kbase=kbase, spec=spec, k=k, power=power, compute=compute, padding=None, reuse=True, **cfg))
-    out.sort(key=lambda c: (c["family"] != "single", c["k"], c["power"], not c["compute"]))
+    for c in out:
+        c["scale"] = 1.0
+    # ---- amplitude coordinate: the property's relations are scale-covariant, so the whole field (mean included) is multiplied by
+    # a global factor; every rotator class x every power, largest k, compute=True (quick: geometric class, first configuration of
+    # each base class, small amplitudes; thorough: both spectra, every configuration but the off-diagonal alpha grid, and 1e+6)
+    scales = [1e-4, 1e-6, 1e-8] if tier == "quick" else [1e-4, 1e-6, 1e-8, 1e6]
+    specs = ["geometric"] if tier == "quick" else list(SPECS)
+    seen_cls = set()
+    amp = []
+    for c in list(out):
+        if c["scale"] != 1.0 or not c["compute"] or c["reuse"] or c["k"] != c["kbase"] or c["spec"] not in specs:
+            continue
+        if c["family"] == "cross" and c["shape"] != [12, 6]:
+            continue
+        if tier == "quick":
+            key = (c["model"], c["cplx"], c["power"])
+            if key in seen_cls:
+                continue
+            seen_cls.add(key)
+        elif c["model"] == "CPCCA" and c["alpha"][0] != c["alpha"][1]:
+            continue
+        for sc in scales:
+            amp.append(dict(c, scale=sc))
+    out += amp
+    out.sort(key=lambda c: (c["scale"] != 1.0, c["family"] != "single", c["k"], c["power"], not c["compute"]))
     return out
 
 
@@ -241,6 +272,16 @@ def _sign_bad(C):
     return bad
 
 
+def _null_mode(case):
+    """The base fit handed over a mode of (relatively) zero variance: nothing for C11 to judge. At amplitude 1 the alphabet is built
+    so that this cannot happen (vacuity guard). At other amplitudes it means the BASE model is not scale-covariant (seen: the
+    fractional whitener drops covariance eigenvalues below an absolute 2.2e-16, so CPCCA with alpha<1 loses rank at amplitude 1e-8);
+    that belongs to the base model's own properties, is tallied here under its own outcome and never counts as a result."""
+    if float(case.get("scale", 1.0)) != 1.0:
+        return dict(outcome="skipped:base_lost_rank_at_amplitude", nontrivial=False, info=dict(amplitude="%g" % case["scale"]))
+    return dict(outcome="skipped:zero_variance_mode", nontrivial=False)
+
+
 def _non_convergence(e):
     return isinstance(e, RuntimeError) and "did not converge" in str(e)
 
@@ -286,7 +327,7 @@ def _run_single(case, seed):
 
     n, p = case["shape"]
     k, power = case["k"], case["power"]
-    X = D.make_matrix(n, p, case["spec"], 1.0, case["cplx"], seed)
+    X = D.make_matrix(n, p, case["spec"], float(case.get("scale", 1.0)), case["cplx"], seed)
     da = _grid_da(X)
     kw = dict(n_modes=case["kbase"], solver="full", random_state=5)
     if case["model"] == "HilbertEOF":
@@ -295,7 +336,7 @@ def _run_single(case, seed):
     base.fit(da, dim="time")
     ev_in = np.asarray(base.explained_variance().values, dtype=float)
     if not ev_in[k - 1] > 1e-10 * ev_in[0]:
-        return dict(outcome="skipped:zero_variance_mode", nontrivial=False)
+        return _null_mode(case)
     rname = SINGLE_ROT[case["model"]]
     rot = getattr(xe.single, rname)(n_modes=k, power=power, compute=case["compute"])
     try:
@@ -309,7 +350,7 @@ def _run_single(case, seed):
             return _not_converged(case, rname, e, np.iscomplexobj(base.data["components"].values))
         raise
 
-    feats = dict(power1=(power == 1), compute=case["compute"], reused_rotator=bool(case.get("reuse")))
+    feats = dict(power1=(power == 1), compute=case["compute"], reused_rotator=bool(case.get("reuse")), amplitude="%g" % case.get("scale", 1.0))
     V = []
 
     def bad(check, msg, **extra):
@@ -382,7 +423,7 @@ def _run_single(case, seed):
                 bad("varimax_criterion", "criterion after %.12g < before %.12g" % (c1, c0))
 
     perm = np.asarray(rot.data["idx_modes_sorted"].values).tolist()
-    info = dict(k=k, family="single", power1=(power == 1), compute=case["compute"], perm_nonidentity=perm != list(range(k)), real_loadings=bool(real_loadings))
+    info = dict(k=k, family="single", power1=(power == 1), compute=case["compute"], perm_nonidentity=perm != list(range(k)), real_loadings=bool(real_loadings), amplitude="%g" % case.get("scale", 1.0))
     return _finish(V, info, S.size > 0 and C.size > 0 and rec.size > 0)
 
 
@@ -393,6 +434,7 @@ def _run_cross(case, seed):
     py = case["py"]
     k, power = case["k"], case["power"]
     X, Y = _cross_pair(n, px, py, case["spec"], case["cplx"], seed)
+    X, Y = X * float(case.get("scale", 1.0)), Y * float(case.get("scale", 1.0))
     da, db = _grid_da(X), _grid_da(Y)
     kw = dict(n_modes=case["kbase"], solver="full", random_state=5, use_pca=case["use_pca"])
     if case["use_pca"]:
@@ -403,7 +445,7 @@ def _run_cross(case, seed):
     base.fit(da, db, dim="time")
     sv_in = np.asarray(base.data["singular_values"].values, dtype=float)
     if not sv_in[k - 1] > 1e-10 * sv_in[0]:
-        return dict(outcome="skipped:zero_variance_mode", nontrivial=False)
+        return _null_mode(case)
     rname = CROSS_ROT[case["model"]]
     rot = getattr(xe.cross, rname)(n_modes=k, power=power, compute=case["compute"])
     try:
@@ -418,7 +460,7 @@ def _run_cross(case, seed):
         raise
 
     a = case["alpha"] if case["alpha"] is not None else [1.0, 1.0]
-    feats = dict(power1=(power == 1), compute=case["compute"], alpha_lt_1=bool(min(a) < 1.0), use_pca=bool(case["use_pca"]), reused_rotator=bool(case.get("reuse")))
+    feats = dict(power1=(power == 1), compute=case["compute"], alpha_lt_1=bool(min(a) < 1.0), use_pca=bool(case["use_pca"]), reused_rotator=bool(case.get("reuse")), amplitude="%g" % case.get("scale", 1.0))
     V = []
 
     def bad(check, msg, **extra):
@@ -499,7 +541,7 @@ def _run_cross(case, seed):
                 bad("varimax_criterion", "criterion after %.12g < before %.12g" % (c1, c0))
 
     perm = np.asarray(rot.data["idx_modes_sorted"].values).tolist()
-    info = dict(k=k, family="cross", power1=(power == 1), compute=case["compute"], perm_nonidentity=perm != list(range(k)), real_loadings=bool(real_loadings))
+    info = dict(k=k, family="cross", power1=(power == 1), compute=case["compute"], perm_nonidentity=perm != list(range(k)), real_loadings=bool(real_loadings), amplitude="%g" % case.get("scale", 1.0))
     return _finish(V, info, S1.size > 0 and S2.size > 0 and L.size > 0)
 
 
@@ -507,7 +549,7 @@ def _run_cross(case, seed):
 
 
 def vacuity(outcomes, results, tier):
-    nskip = sum(v for o, v in outcomes.items() if o.startswith("skipped"))
+    nskip = sum(v for o, v in outcomes.items() if o == "skipped:zero_variance_mode")
     if nskip:
         return "%d cases rotate a zero-variance mode: the alphabet must not contain them" % nskip
     judged = [r for r in results if r.get("outcome") in ("ok", "violation") and r.get("info")]
@@ -527,6 +569,15 @@ def vacuity(outcomes, results, tier):
     for comp in (True, False):
         if not any(r["info"].get("compute") == comp for r in judged):
             return "compute=%s never judged" % comp
+    # amplitude coordinate: every enumerated amplitude must have been judged in both families and at power 1 and >1
+    amps = sorted({r["info"].get("amplitude") for r in results if r.get("info") and r["info"].get("amplitude")})
+    if len(amps) < 2:
+        return "only one field amplitude explored"
+    for a in amps:
+        for fam in ("single", "cross"):
+            for p1 in (True, False):
+                if not any(r["info"].get("amplitude") == a and r["info"].get("family") == fam and r["info"].get("power1") == p1 for r in judged):
+                    return "no %s-set rotation with power %s judged at amplitude %s" % (fam, "1" if p1 else ">1", a)
     return None
 
 
